@@ -99,6 +99,9 @@ func newExec(s *scn.Scenario, opt Options) *exec {
 	// a new bindings map per run, shared by every Compile of the run (callers do
 	// share one map between goroutines); the xml prefix is deliberately not declared
 	nsMap = map[string]string{"x": "urn:x", "y": "urn:y"}
+	if s.Cfg.NSSwap {
+		nsMap = map[string]string{"x": "urn:y", "y": "urn:x"}
+	}
 	for i, d := range s.Docs {
 		x.docs = append(x.docs, world.Build(i, d))
 	}
